@@ -478,6 +478,10 @@ func parseW3cDate(metaName, str string) (time.Time, error) {
 			}
 			tzHour = toInt(match[W3CDateReGroupsIndexes["tzHour"]])
 			tzMinute = toInt(match[W3CDateReGroupsIndexes["tzMinute"]])
+			if strings.HasPrefix(match[W3CDateReGroupsIndexes["tzHour"]], "-") {
+				// the sign applies to the whole offset: -08:45 is -(8h45)
+				tzMinute = -tzMinute
+			}
 		}
 	}
 	loc := time.UTC
